@@ -33,9 +33,9 @@ View == <<bits, i>>
 
 Conforms ==
   IF ~G[i].expanded
-  THEN Bad([prop |-> "C06", kind |-> "unbounded", comp |-> Comp, access |-> G[i].access,
+  THEN BadB([prop |-> "C06", kind |-> "unbounded", comp |-> Comp, access |-> G[i].access,
             note |-> "implementation state space exceeds the exploration cap"])
-  ELSE ReportAll({ a \in 1..3 : IOut(i, a) # SpecOut(bits, a) },
+  ELSE ReportAllB({ a \in 1..3 : IOut(i, a) # SpecOut(bits, a) },
          LAMBDA a : [prop |-> IF IOut(i, a)[1] = "panic" THEN "C08" ELSE "C06",
                      also |-> <<"C06">>, kind |-> "io",
                      comp |-> Comp, ctx |-> bits, access |-> G[i].access, input |-> InputName(a),
@@ -44,7 +44,7 @@ Conforms ==
 (* frames are independent: whenever the spec is at a frame boundary the implementation is in
    its initial state (state 1) - the correspondence is discovered by the product *)
 BoundaryIsInitial ==
-  (bits = <<>>) => (G[i].cls = G[1].cls \/ Bad([prop |-> "C06", kind |-> "boundary", comp |-> Comp,
+  (bits = <<>>) => (G[i].cls = G[1].cls \/ BadB([prop |-> "C06", kind |-> "boundary", comp |-> Comp,
                                   access |-> G[i].access, id |-> G[i].id,
                                   note |-> "at a frame boundary the decoder is not in its initial state"]))
 
